@@ -728,7 +728,11 @@ func (bg *Reader) cacheSwap(base int64) bool {
 
 	blk, err := bg.cachedBlockFor(base)
 	if err != nil {
-		return false
+		// A cached Block that cannot be used is a miss: the current
+		// Block must still be offered to the cache, which may be
+		// holding it (a FIFO keeps the used Blocks it hands out),
+		// before it is reused for another member.
+		blk = nil
 	}
 	if blk != nil {
 		// TODO(kortschak): Under some conditions, e.g. FIFO
